@@ -131,16 +131,6 @@ def audit(xform, default_language):
     return probs, len(refs | item_ids)
 
 
-def _f50_explains(form, prob):
-    osm_tags = {r.get("name") for r in form.get("osm", []) if any(k.startswith(("label::", "label:")) for k in r)}
-    osm_qs = {r.get("name") for r in form.get("survey", []) if " ".join(str(r.get("type", "")).split()).split(" ")[0] == "osm"}
-    m = re.match(r"jr:itext\('([^']*)'\) has no text in translation", prob)
-    if not m or not osm_tags:
-        return False
-    d = m.group(1)
-    return d.endswith(":label") and d[:-len(":label")].split("/")[-1] in osm_tags and len(d.split("/")) >= 3 and d[:-len(":label")].split("/")[-2] in osm_qs
-
-
 def _f9_explains(form, probs):
     text = " ".join(probs)
     lists = {r.get("list_name", r.get("list name")) for r in form.get("choices", [])}
@@ -162,15 +152,8 @@ def _f9_explains(form, probs):
 
 
 def classify(form, probs):
-    """finding F9: a dangling id is the itextId of a choice row that has neither label nor media;
-    finding F50: a dangling id is the label of an osm tag whose label cells are translated.
-    Every problem must be explained by one of the two, otherwise the failure is new."""
-    rest = [p for p in probs if not _f50_explains(form, p)]
-    if not rest:
-        return "F50-translated-osm-tag-label"
-    if _f9_explains(form, rest):
-        return "F9-unlabelled-choice-itextid" if len(rest) == len(probs) else "F50-translated-osm-tag-label"
-    return None
+    """finding F9: every dangling id is the itextId of a choice row that has neither label nor media"""
+    return "F9-unlabelled-choice-itextid" if _f9_explains(form, probs) else None
 
 
 def _check(args):
@@ -284,10 +267,7 @@ def oracle(seed, tier, searching=False):
     }
 
 
-FINDING_INPUTS = {"F50-translated-osm-tag-label": {
-    "survey": [{"type": "osm tags", "name": "o", "label::en": "Map", "label::fr": "Carte"}],
-    "osm": [{"list_name": "tags", "name": "building", "label::en": "Building", "label::fr": "Batiment"}]},
-    "F9-unlabelled-choice-itextid": {
+FINDING_INPUTS = {"F9-unlabelled-choice-itextid": {
     "survey": [{"type": "select_one l", "name": "q", "label::en": "Q", "label::fr": "Q"}],
     "choices": [{"list_name": "l", "name": "a", "label::en": "A", "label::fr": "A"}, {"list_name": "l", "name": "b"}]}}
 
